@@ -13,7 +13,9 @@ Open Scope N_scope.
 Inductive hitem :=
   | HL (l : label)
   | HTail                    (* rest of a delivery: LSync; LCheck; LEnqueue *)
+  | HPre                     (* a delivery up to the unlock: LSync; LCheck *)
   | HUnsub (k : ukind)       (* unsubscribe thread: LUnsub k; LUnsubHub; LUnsubOut *)
+  | HUnsubRest               (* rest of an unsubscribe thread: LUnsubHub; LUnsubOut *)
   | HAsyncDisc.              (* server-side insufficient state: LAsyncDisc; LCloseCleanup *)
 
 Definition lenient (c : cfg) (s : st) (l : label) : st :=
@@ -23,6 +25,8 @@ Definition hstep (c : cfg) (s : st) (h : hitem) : option st :=
   match h with
   | HL l => step c s l
   | HTail => Some (lenient c (lenient c (lenient c s LSync) LCheck) LEnqueue)
+  | HPre => Some (lenient c (lenient c s LSync) LCheck)
+  | HUnsubRest => Some (lenient c (lenient c s LUnsubHub) LUnsubOut)
   | HUnsub k =>
       match step c s (LUnsub k) with
       | Some s1 => Some (lenient c (lenient c s1 LUnsubHub) LUnsubOut)
@@ -42,7 +46,7 @@ Fixpoint hrun (c : cfg) (s : st) (hs : list hitem) : option st :=
   end.
 
 Record case := mkCase {
-  k_var : variant; k_pos : bool; k_rec : bool; k_since : N; k_since_ep : N; k_jl : bool;
+  k_var : variant; k_pos : bool; k_rec : bool; k_since : N; k_since_ep : N; k_jl : bool; k_batch : bool;
   k_sched : list hitem;
   o_log : list frame;       (* observed: decoded frames written to the transport *)
   o_glog : list pubT        (* observed: what the broker accepted (offset, epoch index, filtered?) *)
@@ -71,7 +75,7 @@ Definition frame_eqb (a b : frame) : bool :=
   end.
 
 Definition corr_with (fa fs : bool) (k : case) : bool :=
-  let c := mkCfg (k_var k) (k_pos k) (k_rec k) (k_since k) (k_since_ep k) (k_jl k) fa fs in
+  let c := mkCfg (k_var k) (k_pos k) (k_rec k) (k_since k) (k_since_ep k) (k_jl k) fa fs (k_batch k) in
   match hrun c init (k_sched k) with
   | Some s => list_eqb frame_eqb (log s) (o_log k) && list_eqb pub_eqb (g_log s) (o_glog k)
   | None => false
